@@ -28,3 +28,12 @@ Theorem C15_model_passes_boolean_spec : forall k xs n, (k <= 3)%nat -> (n < leng
   Signalo.Check.Common.qnth n (Signalo.Check.C15.model k xs) == Signalo.Check.C15.spec_at k xs n.
 Proof. exact Signalo.Proofs.Bridge.bridge_c15. Qed.
 Print Assumptions C15_model_passes_boolean_spec.
+
+(* ---- the generic (float / integer) model of the bit-exact stream, instantiated at the rationals, is the model above ---- *)
+From Signalo Require Base.Arith Model.Generic Proofs.Generic.
+Theorem C15_generic_diff : forall s x, Signalo.Model.Generic.g_diff_step Signalo.Base.Arith.Qar s x = Signalo.Model.Smooth.diff_step s x.
+Proof. exact Signalo.Proofs.Generic.gq_diff. Qed.
+Print Assumptions C15_generic_diff.
+Theorem C15_generic_int : forall s x, Signalo.Model.Generic.g_int_step Signalo.Base.Arith.Qar s x = Signalo.Model.Smooth.int_step s x.
+Proof. exact Signalo.Proofs.Generic.gq_int. Qed.
+Print Assumptions C15_generic_int.
